@@ -55,6 +55,9 @@ def tcp_step(t, chunk):
     if len(s) == 0:
         assert len(delivered) == 0 and len(recursed) == 0 and len(t._buffer) == 0
         return
+    # a header fragment is always kept (a frame split inside its first six octets is not lost)
+    if len(s) < 6:
+        assert bytes(t._buffer) == s
     if len(t._buffer) > 0:
         # kept for later: it is all of S, nothing was handed on or skipped
         assert bytes(t._buffer) == s and len(delivered) == 0 and len(recursed) == 0
@@ -132,3 +135,31 @@ def handle_knxipframe_calls_each_matching_callback_once(t, service):
     called = ghost("called")
     expected = [i for i, c in enumerate(t.callbacks) if (not c.service_types) or (service in c.service_types)]
     assert called == expected
+
+
+# ----------------------------------------------------------------------------- what the stream callback relies on
+
+from xknx.exceptions import IncompleteKNXIPFrame  # noqa: E402
+from xknx.knxip import KNXIPFrame  # noqa: E402
+from xknx.knxip.knxip_enum import KNXIPServiceType  # noqa: E402
+
+
+@lemma("C22", params=dict(data=Bytes(max_len=70000)))
+def a_proper_prefix_of_a_frame_is_reported_incomplete(data):
+    """The part of KNXIPFrame.from_knx's contract the TCP lemma above depends on, proved here on the real
+    parser (the full contract is C20): fewer than six octets, or a well-formed header announcing more
+    octets than present, raise IncompleteKNXIPFrame - never 'malformed', which would make the transport
+    throw the beginning of a frame away."""
+    short = len(data) < 6
+    if not short:
+        assume_header = data[0] == 6 and data[1] == 0x10 and (data[2] * 256 + data[3]) in tuple(m.value for m in KNXIPServiceType)
+        total = data[4] * 256 + data[5]
+        if not (assume_header and total >= 6 and len(data) < total):
+            return
+    try:
+        KNXIPFrame.from_knx(data)
+    except IncompleteKNXIPFrame:
+        return
+    except CouldNotParseKNXIP:
+        assert False, "a proper prefix of a frame was reported as malformed"
+    assert False, "a proper prefix of a frame was parsed"
